@@ -26,6 +26,10 @@ CLAIMED = {
          "Exploration: for generated multi-label batches the batch decision must (a) not depend on the verifier RNG seed, (b) equal the AND of the scheme's own per-label checks on one threaded sponge, (c) equal the ground truth (all claims true and honest proof list). Error vectors include plain cancelling pairs inside a label and across labels and challenge-weighted cancellation across labels sharing a point value (challenges replayed by the harness).",
          "Verifier randomness and batching challenges are honest randomness; weighted cancellation inside one label is accepted by design (the caller must bind values into the sponge) and is not generated.",
          "DESIGN.md §4 C05"),
+ "C06": ("property-based testing (proptest): generated linear combinations (zero/negative/repeated/constant terms, shared labels and point values), honest acceptance plus value/coefficient/constant/transmitted-evaluation perturbations, degree-bound policy",
+         "Exploration: generated LC lists and LC query sets over committed polynomials; open_combinations/check_combinations must accept the true LC values and reject a changed claimed value, verifier-side coefficient, verifier-side constant or sum-preserving change of transmitted evaluations; degree-bounded polynomials: [1*p_b] verifies and still enforces the bound, every bound-dropping combination is refused by both entry points.",
+         "LC values are computed from ark-poly evaluations; coefficient perturbations are applied to polynomials that do not vanish at the queried point so the perturbed statement is false.",
+         "DESIGN.md §4 C06"),
 }
 
 NOT_YET = "check not built yet in this round (planned, see DESIGN.md §4)"
